@@ -14,9 +14,12 @@ func init() {
 	register(&Rule{ID: "R08.3", Props: []string{"C08", "C01"}, Floor: 2,
 		Doc: "trailer order: table, then data size, then table size + type code; only big-endian byte order objects in encode/decode/format",
 		Run: runR08_3})
-	register(&Rule{ID: "R08.4", Props: []string{"C08", "C10", "C01"}, Floor: 18,
-		Doc: "Grow coverage: every byte of every buffer.Grow(n) region in internal/encode is written on every path before the encoder returns; no write into a grown region after a later call that may grow the same buffer; returned size equals bytes grown",
-		Run: runR08_4})
+	register(&Rule{ID: "R08.4", Props: []string{"C08"}, Floor: 18,
+		Doc: "Grow coverage (determinism): every byte of every buffer.Grow(n) region in internal/encode is written on every path before the encoder returns",
+		Run: func(c *Ctx, r *R) { runR08_4(c, r, "coverage") }})
+	register(&Rule{ID: "R08.6", Props: []string{"C08", "C01", "C10"}, Floor: 18,
+		Doc: "no stale region: nothing is written into a grown region after a later call that may grow (reallocate) the same buffer",
+		Run: func(c *Ctx, r *R) { runR08_4(c, r, "stale") }})
 }
 
 func isGrowCall(call ssa.CallInstruction) bool {
@@ -158,7 +161,9 @@ func chainCovers(ivs []wInterval, n Lin) (bool, Lin) {
 	return cur.equal(n), cur
 }
 
-func runR08_4(c *Ctx, r *R) {
+func runR08_4(c *Ctx, r0 *R, part string) {
+	// the two parts are reported by two rules; r is a filter on the obligation key suffix
+	r := &partR{R: r0, part: part}
 	e := newBE(c)
 	for _, fn := range c.SrcFuncs("internal/encode") {
 		nG := 0
@@ -230,6 +235,24 @@ func runR08_4(c *Ctx, r *R) {
 				r.Bad(key+"/coverage", g.Pos(), "only bytes [0, %s) of the %s bytes obtained from Grow are written on every path: Grow does not zero reused capacity, so the remaining byte(s) keep whatever the buffer held before and the encoding depends on buffer history", reached.String(e.name), N.String(e.name))
 			}
 		}
+	}
+}
+
+// partR forwards only the obligations whose key ends in "/<part>".
+type partR struct {
+	*R
+	part string
+}
+
+func (p *partR) OK(key string, pos token.Pos, format string, a ...any) {
+	if strings.HasSuffix(key, "/"+p.part) {
+		p.R.OK(key, pos, format, a...)
+	}
+}
+
+func (p *partR) Bad(key string, pos token.Pos, format string, a ...any) {
+	if strings.HasSuffix(key, "/"+p.part) {
+		p.R.Bad(key, pos, format, a...)
 	}
 }
 
